@@ -4,6 +4,7 @@ import (
 	"go/constant"
 	"go/token"
 	"go/types"
+	"sort"
 	"strings"
 
 	"golang.org/x/tools/go/ssa"
@@ -75,6 +76,15 @@ func sameValue(a, b ssa.Value, depth int) bool {
 // effMode matches `r.modeWant & r.modeGiven` (either order) of one and the same record r, where
 // want/given are the given field objects. Returns the record base.
 func effMode(v ssa.Value, want, given *types.Var) (bool, ssa.Value) {
+	if call, isCall := core.Strip(v).(*ssa.Call); isCall {
+		// an accessor of the record: `func (p perUserData) effectiveMode() AccessMode`
+		if callee := call.Call.StaticCallee(); callee != nil && core.InModule(callee) {
+			if pi, ok := effAccessor(callee, want, given); ok && pi < len(call.Call.Args) {
+				return true, call.Call.Args[pi]
+			}
+		}
+		return false, nil
+	}
 	b, ok := core.Strip(v).(*ssa.BinOp)
 	if !ok || b.Op != token.AND {
 		return false, nil
@@ -91,6 +101,91 @@ func effMode(v ssa.Value, want, given *types.Var) (bool, ssa.Value) {
 		return false, nil
 	}
 	return true, b1
+}
+
+type effAccKey struct {
+	fn   *ssa.Function
+	want *types.Var
+}
+
+var effAccMemo = map[effAccKey]int{}
+
+// effAccessor: every return of fn yields want&given of the record passed as parameter #idx (or a
+// constant: ModeInvalid / ModeNone for a record that does not count), at least one the intersection.
+func effAccessor(fn *ssa.Function, want, given *types.Var) (int, bool) {
+	key := effAccKey{fn, want}
+	if v, ok := effAccMemo[key]; ok {
+		return v, v >= 0
+	}
+	effAccMemo[key] = -1
+	if fn.Signature.Results().Len() != 1 || !isModeType(fn.Signature.Results().At(0).Type()) {
+		return -1, false
+	}
+	idx, n, good := -1, 0, true
+	var visit func(v ssa.Value, d int)
+	visit = func(v ssa.Value, d int) {
+		v = core.Strip(v)
+		if d > 4 {
+			good = false
+			return
+		}
+		switch x := v.(type) {
+		case *ssa.Const:
+			return
+		case *ssa.Phi:
+			for _, e := range x.Edges {
+				visit(e, d+1)
+			}
+			return
+		}
+		ok, base := effMode(v, want, given)
+		if !ok {
+			good = false
+			return
+		}
+		// the record is a parameter (by value or by pointer)
+		b := core.Strip(base)
+		if u, isLoad := b.(*ssa.UnOp); isLoad && u.Op == token.MUL {
+			b = core.Strip(u.X)
+		}
+		if a, isAlloc := b.(*ssa.Alloc); isAlloc && a.Referrers() != nil {
+			// a by-value parameter spilled to a local because its fields are addressed
+			var st *ssa.Store
+			nst := 0
+			for _, r := range *a.Referrers() {
+				if s, ok := r.(*ssa.Store); ok && s.Addr == ssa.Value(a) {
+					st, nst = s, nst+1
+				}
+			}
+			if nst == 1 {
+				b = core.Strip(st.Val)
+			}
+		}
+		p, isP := b.(*ssa.Parameter)
+		if !isP {
+			good = false
+			return
+		}
+		for i, q := range fn.Params {
+			if q == p {
+				if idx >= 0 && idx != i {
+					good = false
+				}
+				idx = i
+			}
+		}
+		n++
+	}
+	core.AllInstrs(fn, func(in ssa.Instruction) {
+		if ret, ok := in.(*ssa.Return); ok && len(ret.Results) == 1 {
+			visit(ret.Results[0], 0)
+		}
+	})
+	if !good || n == 0 || idx < 0 {
+		return -1, false
+	}
+	effAccMemo[key] = idx
+	return idx, true
 }
 
 // isEffMode is the predicate form over perUserData.modeWant/modeGiven.
@@ -326,6 +421,12 @@ func (c *Ctx) benignCall(in ssa.Instruction) bool {
 			return true
 		}
 	}
+	// a helper or a directly called function literal that itself does nothing but reply / log
+	if g := cc.StaticCallee(); g != nil && core.InModule(g) && len(g.Blocks) > 0 {
+		if _, isCall := in.(*ssa.Call); isCall && c.effectFreeFunc(g, 0) {
+			return true
+		}
+	}
 	f := core.CalleeOf(cc)
 	if f == nil {
 		return false
@@ -364,6 +465,44 @@ func (c *Ctx) benignCall(in ssa.Instruction) bool {
 		}
 	}
 	return false
+}
+
+// effectFreeFunc: no instruction of fn has an effect (writes to variables captured from the
+// enclosing function are local there); memoised, two levels of helpers.
+func (c *Ctx) effectFreeFunc(fn *ssa.Function, depth int) bool {
+	if c.effFree == nil {
+		c.effFree = map[*ssa.Function]int{}
+	}
+	switch c.effFree[fn] {
+	case 1:
+		return true
+	case 2, 3:
+		return false // 3: in progress (recursion)
+	}
+	if depth > 2 {
+		return false
+	}
+	c.effFree[fn] = 3
+	ok := true
+	core.AllInstrs(fn, func(in ssa.Instruction) {
+		if !ok {
+			return
+		}
+		if st, isSt := in.(*ssa.Store); isSt {
+			if _, isFV := st.Addr.(*ssa.FreeVar); isFV {
+				return
+			}
+		}
+		if c.isEffectInstr(in) {
+			ok = false
+		}
+	})
+	if ok {
+		c.effFree[fn] = 1
+	} else {
+		c.effFree[fn] = 2
+	}
+	return ok
 }
 
 // effectFreeFrom checks that from the given edges to function exit no instruction with an
@@ -836,4 +975,193 @@ func virtualStores(fn *ssa.Function, field *types.Var) []vstore {
 		expand(st.Val, st, 0)
 	}
 	return out
+}
+
+// phaseRoot climbs from an extracted phase / helper to the function it was split from: while fn is
+// an unexported, non-literal function with exactly one call site, a plain static call, the caller
+// takes its place (at most three levels).
+func (c *Ctx) phaseRoot(fn *ssa.Function) *ssa.Function {
+	for i := 0; i < 3; i++ {
+		if fn.Parent() != nil {
+			fn = fn.Parent()
+			continue
+		}
+		if fn.Object() != nil && fn.Object().Exported() {
+			return fn
+		}
+		cs := c.callersOf(fn)
+		if len(cs) != 1 {
+			return fn
+		}
+		call, ok := cs[0].Site.(*ssa.Call)
+		if !ok || call.Call.StaticCallee() != fn || !core.InModule(cs[0].Caller) {
+			return fn
+		}
+		fn = cs[0].Caller
+	}
+	return fn
+}
+
+// regionOf: root, its function literals, and the helpers it calls statically whose phaseRoot is
+// root (two levels).
+func (c *Ctx) regionOf(root *ssa.Function) map[*ssa.Function]bool {
+	out := map[*ssa.Function]bool{root: true}
+	var add func(fn *ssa.Function, d int)
+	add = func(fn *ssa.Function, d int) {
+		for _, lit := range fn.AnonFuncs {
+			if !out[lit] {
+				out[lit] = true
+				add(lit, d)
+			}
+		}
+		if d >= 2 {
+			return
+		}
+		core.AllInstrs(fn, func(in ssa.Instruction) {
+			call, ok := in.(*ssa.Call)
+			if !ok {
+				return
+			}
+			g := call.Call.StaticCallee()
+			if g == nil || out[g] || !core.InModule(g) || len(g.Blocks) == 0 {
+				return
+			}
+			if c.phaseRoot(g) == root {
+				out[g] = true
+				add(g, d+1)
+			}
+		})
+	}
+	add(root, 0)
+	return out
+}
+
+// regionInstrs visits the instructions of every function of the region.
+func (c *Ctx) regionInstrs(root *ssa.Function, visit func(fn *ssa.Function, in ssa.Instruction)) {
+	var fns []*ssa.Function
+	for fn := range c.regionOf(root) {
+		fns = append(fns, fn)
+	}
+	sort.Slice(fns, func(i, j int) bool { return fk(fns[i]) < fk(fns[j]) })
+	for _, fn := range fns {
+		core.AllInstrs(fn, func(in ssa.Instruction) { visit(fn, in) })
+	}
+}
+
+// rootValue follows a parameter of a phase / helper with a single call site to the argument passed
+// there (at most three levels): two values of different phases denote the same object when their
+// root values are the same SSA value.
+func (c *Ctx) rootValue(v ssa.Value) ssa.Value {
+	for i := 0; i < 3; i++ {
+		v = core.Strip(v)
+		p, ok := v.(*ssa.Parameter)
+		if !ok {
+			return v
+		}
+		fn := p.Parent()
+		if fn.Parent() != nil || (fn.Object() != nil && fn.Object().Exported()) {
+			return v
+		}
+		cs := c.callersOf(fn)
+		if len(cs) != 1 {
+			return v
+		}
+		call, ok := cs[0].Site.(*ssa.Call)
+		if !ok || call.Call.StaticCallee() != fn {
+			return v
+		}
+		idx := -1
+		for j, q := range fn.Params {
+			if q == p {
+				idx = j
+			}
+		}
+		if idx < 0 || idx >= len(call.Call.Args) {
+			return v
+		}
+		v = call.Call.Args[idx]
+	}
+	return core.Strip(v)
+}
+
+// literalOf: the fields of the struct literal v points to: a literal built in place, or built by a
+// module constructor whose single return is a fresh literal (its parameters are replaced by the
+// arguments of the call).
+func (c *Ctx) literalOf(v ssa.Value) (map[string]ssa.Value, bool) {
+	v = core.Strip(v)
+	if a, ok := v.(*ssa.Alloc); ok {
+		return literalFields(a), true
+	}
+	call, ok := v.(*ssa.Call)
+	if !ok {
+		return nil, false
+	}
+	g := call.Call.StaticCallee()
+	if g == nil || !core.InModule(g) || len(g.Blocks) == 0 {
+		return nil, false
+	}
+	var lit *ssa.Alloc
+	n := 0
+	core.AllInstrs(g, func(in ssa.Instruction) {
+		if ret, ok := in.(*ssa.Return); ok && len(ret.Results) >= 1 {
+			n++
+			if a, ok := core.Strip(ret.Results[0]).(*ssa.Alloc); ok {
+				lit = a
+			}
+		}
+	})
+	if n != 1 || lit == nil {
+		return nil, false
+	}
+	out := map[string]ssa.Value{}
+	for name, fv := range literalFields(lit) {
+		if p, ok := core.Strip(fv).(*ssa.Parameter); ok {
+			for j, q := range g.Params {
+				if q == p && j < len(call.Call.Args) {
+					fv = call.Call.Args[j]
+				}
+			}
+		}
+		out[name] = fv
+	}
+	return out, true
+}
+
+// recordRoot: the record a phase received by value (a parameter, possibly spilled to a local) is
+// the record its caller passed.
+func (c *Ctx) recordRoot(base ssa.Value) ssa.Value {
+	b := core.Strip(base)
+	if a, ok := b.(*ssa.Alloc); ok && a.Referrers() != nil {
+		var st *ssa.Store
+		n := 0
+		for _, r := range *a.Referrers() {
+			if s, ok := r.(*ssa.Store); ok && s.Addr == ssa.Value(a) {
+				st, n = s, n+1
+			}
+		}
+		if n == 1 {
+			b = core.Strip(st.Val)
+		}
+	}
+	return c.rootValue(b)
+}
+
+// soleCaller: the caller of an unexported function that has exactly one call site, a plain static
+// call; nil otherwise.
+func (c *Ctx) soleCaller(fn *ssa.Function) *ssa.Function {
+	if fn.Parent() != nil {
+		return fn.Parent()
+	}
+	if fn.Object() != nil && fn.Object().Exported() {
+		return nil
+	}
+	cs := c.callersOf(fn)
+	if len(cs) != 1 {
+		return nil
+	}
+	call, ok := cs[0].Site.(*ssa.Call)
+	if !ok || call.Call.StaticCallee() != fn || !core.InModule(cs[0].Caller) {
+		return nil
+	}
+	return cs[0].Caller
 }
